@@ -163,6 +163,33 @@ func (g *gen) boolDirective() string {
 	if !g.chance(0.25) {
 		return ""
 	}
+	if g.chance(0.3) {
+		// both directives on one node, in either order (the node is included only if @skip is
+		// false AND @include is true)
+		g.feat["skip_and_include_together"]++
+		a, b := g.oneBoolDirective("@skip"), g.oneBoolDirective("@include")
+		if g.chance(0.5) {
+			a, b = b, a
+		}
+		return a + b
+	}
+	d := "@skip"
+	if g.chance(0.5) {
+		d = "@include"
+	}
+	return g.oneBoolDirective(d)
+}
+
+func (g *gen) oneBoolDirective(d string) string {
+	g.feat["skipinclude"]++
+	if !g.cfg.NoVariables && g.chance(0.5) {
+		g.feat["skipinclude_var"]++
+		return " " + d + "(if: $" + g.boolVar() + ")"
+	}
+	return " " + d + "(if: " + strconv.FormatBool(g.chance(0.5)) + ")"
+}
+
+func (g *gen) boolDirectiveOld() string {
 	d := "@skip"
 	if g.chance(0.5) {
 		d = "@include"
